@@ -37,6 +37,8 @@ def instances(tier, seed):
             if pos == 'or' and total > 1: continue
             out.append(dict(name='%s/%s/%s' % (styles or '-', ','.join(map(str, lens)) or '-', pos), styles=styles, lens=lens, pos=pos))
     # largest instances first (better load balance)
+    for i in out:
+        if sum(i['lens']) >= 3: i['_split'] = 5
     out.sort(key=lambda i: -sum(i['lens']))
     return out
 
@@ -360,7 +362,8 @@ def run_instance(prog, inst, tier, seed, deadline):
             key, margs, nlabel = minimize(ne, inst['styles'], args, inst['pos'])
             return dict(label='hang', line=line, args=args, styles=inst['styles'], pos=inst['pos'], key=key, min_args=margs, native_label=nlabel)
         res = hsupport.run_paths(prog, body(inst), deadline, on_ok=on_ok, on_violation=on_violation, on_panic=on_panic,
-                                 on_budget=on_budget, step_budget=400_000)
+                                 on_budget=on_budget, step_budget=400_000,
+                                 prefix=inst.get('_prefix'), split_depth=inst.get('_split'))
         # unpack multi-violation leaves
         flat = []
         for v in res['violations']:
